@@ -125,8 +125,64 @@ theorem reopen_size_partial (st : St) (ops : List Op) (pol : Policy) (maxoff : N
   rw [hinv.1]
   simp [hsz.2.1]
 
+/-- **Private windows, the part that holds.** A write that lies inside the mapped part of the first window
+    (the layout iwkv uses: one window from offset 0) and needs no growth is read back exactly by a read of the
+    same range — for a private window (page-granular copy-on-write overlay) as well as for a shared one,
+    whatever other windows follow. "Partial": it covers the first window and the same range only, and — as
+    the next theorems show cannot be avoided — only while nothing re-maps the window in between. -/
+theorem private_read_after_write_partial (st : St) (s : Slot) (rest : List Slot) (off : Nat) (d : Bytes)
+    (hsl : st.slots = s :: rest) (hd : d ≠ []) (hb : (off : Int) + d.length ≤ offTMax)
+    (h1 : s.off ≤ off) (h2 : off + d.length ≤ s.off + s.len) (hfs : off + d.length ≤ st.fsize)
+    (hmax : st.maxoff = 0 ∨ off + d.length ≤ st.maxoff) :
+    (write st off d).1 = .ok ∧ (write st off d).2.1 = d.length ∧
+      read (write st off d).2.2 off d.length = (.ok, d) :=
+  write_read_first_window st s rest off d hsl hd hb h1 h2 hfs hmax
+
+/-! ### The stated exceptions, exhibited on the model (page size 4 to keep the witnesses small)
+
+These are the model-level images of the open findings C12-PRIV and C12-COPYEXT; the check replays the same
+shapes on the implementation. -/
+
+def witness : St :=
+  { psize := 4, cbuf := 4, isOpen := true, fsize := 4, file := [1, 2, 3, 4],
+    slots := [{ off := 0, maxlen := 8, len := 4, priv := true }] }
+
+/-- a write through a private window is visible until growth re-maps the window; then the old file bytes are back -/
+theorem private_remap_loses_write :
+    (run witness [.write 0 [9], .read 0 1, .ensure 5, .read 0 1]).2 =
+      [(.ok, []), (.ok, [9]), (.ok, []), (.ok, [1])] := by decide
+
+/-- removing the private window drops what was written through it -/
+theorem private_remove_loses_write :
+    (run witness [.write 0 [9], .removeMmap 0, .read 0 1]).2 = [(.ok, []), (.ok, []), (.ok, [1])] := by decide
+
+def witness2 : St :=
+  { psize := 4, cbuf := 4, isOpen := true, fsize := 8, file := [1, 2, 3, 4, 5, 6, 7, 8],
+    slots := [{ off := 4, maxlen := 4, len := 4, priv := true }] }
+/-- a copy that goes through the file does not see bytes held in a private window -/
+theorem private_copy_bypasses_window :
+    (run witness2 [.write 4 [9], .read 4 1, .copy 4 1 0, .read 0 1]).2 =
+      [(.ok, []), (.ok, [9]), (.ok, []), (.ok, [5])] := by decide
+
+def witness3 : St := { psize := 4, cbuf := 4, isOpen := true, fsize := 4, file := [1, 2, 3, 4] }
+/-- a copy that ends beyond the logical size makes the file on disk longer than `fsize` -/
+theorem copy_beyond_grows_disk :
+    ((run witness3 [.copy 0 3 3]).1.fsize, (run witness3 [.copy 0 3 3]).1.file.length) = (4, 6) := by decide
+
+/-- non-vacuity of `private_read_after_write_partial`: the witness state satisfies its hypotheses -/
+example : (write witness 0 [9]).1 = .ok ∧ read (write witness 0 [9]).2.2 0 1 = (.ok, [9]) := by
+  have := private_read_after_write_partial witness _ _ 0 [9] rfl (by simp) (by decide) (by decide) (by decide)
+    (by decide) (by decide)
+  exact ⟨this.1, this.2.2⟩
+
 /-- non-vacuity: a freshly opened file satisfies the size invariant and has only shared windows -/
 example : SizeInv ({ psize := 4096, cbuf := 4096 } : St) ∧ AllShared ({ psize := 4096, cbuf := 4096 } : St).slots :=
   ⟨⟨by decide, by decide, by simp⟩, by simp [AllShared]⟩
+
+/-- non-vacuity of `reopen_size_partial` / `read_unaffected_by_write`: the empty file satisfies `Inv`, and a
+    history with a copy inside the file satisfies `CopiesInside` -/
+example : Inv ({ psize := 4, cbuf := 4 } : St) ∧
+    CopiesInside ({ psize := 4, cbuf := 4 } : St) [.write 0 [1, 2, 3, 4, 5], .copy 0 2 4, .truncate 4] :=
+  ⟨⟨rfl, by simp⟩, by simp [CopiesInside]; decide⟩
 
 end IwModel.C12
